@@ -99,12 +99,14 @@ CHECKS["C14"] = (
 )
 
 CHECKS["C12"] = (
-    "Coq proof (lists) about a hand-written table-level store model; exact vm_compute correspondence replaying operation sequences executed on real files",
+    "Coq proof (lists) about a hand-written table-level store model and the batch readers regenerated from source; exact vm_compute correspondence replaying operation sequences executed on real files",
     "Model/Store.v: store = optional table (ordered header of (name, unit), metadata t_ref/poly_trend/n_offsets, rows); write/overwrite/append "
     "with refusal kinds, read, read_batch by slice and by index with unit factors. Theorems: read after write returns the table written; an "
     "append is accepted iff header (names, order, units -- compatibility is EQUALITY, so fewer/more columns are refused) and metadata agree "
     "and then rows are concatenated; any sequence of compatible appends yields the concatenation in order; a refused write leaves the store "
-    "unchanged; slice reads return exactly rows lo+k*step<hi, index reads one row per index in the given order with repeats. Each run Coq "
+    "unchanged; slice reads return exactly rows lo+k*step<hi, index reads one row per index in the given order with repeats. "
+    "tools/py2v_readbatch.py regenerates Gen/ReadBatchGen.v from utils.read_batch / read_batch_slice / read_batch_idx / read_random_batch "
+    "(accepted only in the pinned statement forms) and Props/C12g.v proves the generated column-by-column readers return exactly the rows of the model. Each run Coq "
     "replays random op sequences executed on real HDF5/FITS files (run_ops).",
     "Trusted: Coq kernel + vm_compute; HDF5/FITS byte encodings, YAML header, astropy unit factors and Time serialisation (store modelled at "
     "table level); the random-subset read is checked through the recorded choice() (numpy's choice without replacement trusted).",
